@@ -68,6 +68,8 @@ def histories(tier):
         out += [list(h) for h in itertools.product(STEP_KINDS, repeat=4)][::3]
     # a second session begun on the same instance (with other equations, so that the sessions can be told apart)
     out += [["rebegin"], ["nobody", "rebegin"], ["nobody", "rebegin", "nobody"], ["set", "rebegin", "set"], ["rebegin", "rebegin", "nobody"]]
+    # one run-steps request for two steps: the SAME settings object is logged for both steps
+    out += [["steps2set"], ["nobody", "steps2set"], ["steps2set", "set"], ["steps2empty", "nobody"]]
     return out
 
 
@@ -130,6 +132,11 @@ def run_case(spec, hist, compress, mode_whole, mode, env=None):
                 r = post("/%s/run-step" % inst, {"settings": {"sm": {"A": {"constants": {"k": v}}}}})
             elif kind == "empty":
                 r = post("/%s/run-step" % inst, {"settings": {}})
+            elif kind == "steps2set":
+                v = scen.sym_const("v%d" % i) if mode == "sym" else float((env or {}).get("v%d" % i, 2.0 + i))
+                r = post("/%s/run-steps" % inst, {"numberSteps": 2, "settings": {"sm": {"A": {"constants": {"k": v}}}}})
+            elif kind == "steps2empty":
+                r = post("/%s/run-steps" % inst, {"numberSteps": 2, "settings": {}})
             elif kind == "rebegin":
                 eqs = scen.EQS[:2] if (hist[:i + 1].count("rebegin") % 2) else scen.EQS[1:]
                 r = post("/%s/begin-session" % inst, {"scenario_managers": ["sm"], "scenarios": ["A"], "equations": eqs})
